@@ -23,8 +23,6 @@ pub fn vx_u16_from_be_bytes(b: [u8; 2]) -> (r: u16)
 pub fn vx_vec_from_slice(s: &[u8]) -> (r: Vec<u8>)
     ensures r@ == s@,
 { Vec::from(s) }
-#[verifier::external_body]
-pub fn vx_opaque_string() -> (r: String) { String::new() }
 
 // ---------- oracle: frame markers ----------
 pub open spec fn sh_pat(s: Seq<u8>, i: int) -> bool {
@@ -39,14 +37,15 @@ pub proof fn lemma_le32_sh(b0: u8, b1: u8, b2: u8, b3: u8)
 pub proof fn lemma_le32_ser(b0: u8, b1: u8, b2: u8, b3: u8)
     ensures le32(b0, b1, b2, b3) == 0x01534c44 <==> (b0 == 0x44 && b1 == 0x4c && b2 == 0x53 && b3 == 0x01),
 {}
-pub proof fn lemma_sh_pat_suffix(d: Seq<u8>, i: int)
+pub broadcast proof fn lemma_sh_pat_suffix(d: Seq<u8>, i: int)
     requires 0 <= i <= d.len(),
-    ensures sh_pat(d.subrange(i, d.len() as int), 0) == sh_pat(d, i),
+    ensures #[trigger] sh_pat(d.subrange(i, d.len() as int), 0) == sh_pat(d, i),
 {}
-pub proof fn lemma_ser_pat_suffix(d: Seq<u8>, i: int)
+pub broadcast proof fn lemma_ser_pat_suffix(d: Seq<u8>, i: int)
     requires 0 <= i <= d.len(),
-    ensures ser_pat(d.subrange(i, d.len() as int), 0) == ser_pat(d, i),
+    ensures #[trigger] ser_pat(d.subrange(i, d.len() as int), 0) == ser_pat(d, i),
 {}
+// used by the parsers via `broadcast use` at the start of the body: no statement-level anchors needed
 
 // ---------- oracle: header layout ----------
 pub open spec fn hdr_size(htyp: u8) -> int {
@@ -354,26 +353,23 @@ pub open spec fn parse_agrees(res: Result<(usize, DltMessage), Error>, o: SParse
 
 //@ extract src/dlt/mod.rs fn parse_dlt_with_storage_header
 //@   sub R3 `Vec::from(` => `vx_vec_from_slice(`
-//@   sub R6 `String::from("skipped probably corrupt msg due to storage header pattern heuristic")` => `vx_opaque_string()`
-//@   sub R6 `String::from( "stdh.len too small", )` => `vx_opaque_string()`
-//@   sub R6 `String::from( "no storageheader", )` => `vx_opaque_string()`
 //@   ret res
 //@   spec
 //@|    ensures
 //@|        parse_agrees(res, spec_parse_storage(data@, index as int)), // O:parse_storage.eq
 //@|        res is Ok ==> 20 <= res->Ok_0.0 <= data@.len(), // O:parse_storage.consumed
-//@   hint before `if remaining >= 4 && !is_storage_header_pattern(&data[to_consume..]) {`
-//@|    proof { lemma_sh_pat_suffix(data@, to_consume as int); }
+//@   hint start
+//@|    broadcast use lemma_sh_pat_suffix;
+//@   hint loopstart 1
+//@|    broadcast use lemma_sh_pat_suffix;
 //@   loop 1
 //@|    invariant
 //@|        to_consume <= data@.len(),
 //@|        forall|j: int| 5 <= j < i ==> !sh_pat(data@, j), // O:parse_storage.scan
 //@|        spec_parse_storage(data@, index as int) == (if inner_sh(data@, to_consume as int) { SParse::Invalid } else {
-//@|            SParse::Msg(to_consume as int, spec_msg_at(data@, 16, index as int, storage_rtime(data@), data@.subrange(12, 16))) }),
-//@   hint before `if is_storage_header_pattern(&data[i..]) {`
-//@|    proof { lemma_sh_pat_suffix(data@, i as int); }
+//@|            SParse::Msg(to_consume as int, spec_msg_at(data@, 16, index as int, storage_rtime(data@), data@.subrange(12, 16))) }), // O:parse_storage.heuristic
 //@   hint before `let payload = vx_vec_from_slice(`
-//@|    assert(!(data@.len() - to_consume >= 4 && !sh_pat(data@, to_consume as int) && inner_sh(data@, to_consume as int)));
+//@|    assert(!(data@.len() - to_consume >= 4 && !sh_pat(data@, to_consume as int) && inner_sh(data@, to_consume as int))); // O:parse_storage.accept
 //@   hint before `Ok((to_consume, msg))`
 //@|    proof {
 //@|        let d = data@;
@@ -392,27 +388,23 @@ pub open spec fn parse_agrees(res: Result<(usize, DltMessage), Error>, o: SParse
 
 //@ extract src/dlt/mod.rs fn parse_dlt_with_serial_header
 //@   sub R3 `Vec::from(` => `vx_vec_from_slice(`
-//@   sub R6 `format!("skipped probably corrupt msg due to serial header pattern heuristic. serial pattern at {} vs expected {}", i, to_consume)` => `vx_opaque_string()`
-//@   sub R6 `String::from( "not enough data", )` => `vx_opaque_string()`
-//@   sub R6 `String::from( "stdh.len too small", )` => `vx_opaque_string()`
-//@   sub R6 `String::from( "no serialheader", )` => `vx_opaque_string()`
 //@   ret res
 //@   spec
 //@|    ensures
 //@|        parse_agrees(res, spec_parse_serial(data@, index as int)), // O:parse_serial.eq
 //@|        res is Ok ==> 8 <= res->Ok_0.0 <= data@.len(), // O:parse_serial.consumed
-//@   hint before `if remaining >= 4 && !is_serial_header_pattern(&data[to_consume..]) {`
-//@|    proof { lemma_ser_pat_suffix(data@, to_consume as int); }
+//@   hint start
+//@|    broadcast use lemma_ser_pat_suffix;
+//@   hint loopstart 1
+//@|    broadcast use lemma_ser_pat_suffix;
 //@   loop 1
 //@|    invariant
 //@|        to_consume <= data@.len(),
 //@|        forall|j: int| 5 <= j < i ==> !ser_pat(data@, j), // O:parse_serial.scan
 //@|        spec_parse_serial(data@, index as int) == (if inner_ser(data@, to_consume as int) { SParse::Invalid } else {
-//@|            SParse::Msg(to_consume as int, spec_msg_at(data@, 4, index as int, serial_rtime(), serial_ecu())) }),
-//@   hint before `if is_serial_header_pattern(&data[i..]) {`
-//@|    proof { lemma_ser_pat_suffix(data@, i as int); }
+//@|            SParse::Msg(to_consume as int, spec_msg_at(data@, 4, index as int, serial_rtime(), serial_ecu())) }), // O:parse_serial.heuristic
 //@   hint before `let payload =`
-//@|    assert(!(data@.len() - to_consume >= 4 && !ser_pat(data@, to_consume as int) && inner_ser(data@, to_consume as int)));
+//@|    assert(!(data@.len() - to_consume >= 4 && !ser_pat(data@, to_consume as int) && inner_ser(data@, to_consume as int))); // O:parse_serial.accept
 //@   hint before `Ok((to_consume, msg))`
 //@|    proof {
 //@|        let d = data@;
